@@ -23,7 +23,7 @@ TEXT = {
  ),
  "C16": dict(
   technique="property-based testing (rapid): recorded metrics call log vs. sizes observed on the client and target sockets",
-  level_text="The same generated UDP histories; after shutdown the UDPMetrics/UDPConnMetrics call log is compared per association with what the sockets saw: one add (with the authenticating id), exactly one remove and nothing after it, every datagram on the association once with wire size, forwarded payload size and status, every reply once with payload and wire size.",
+  level_text="The same generated UDP histories; after shutdown the UDPMetrics/UDPConnMetrics call log is compared per association with what the sockets saw: one add (with the authenticating id), exactly one remove and nothing after it, every datagram on the association once with wire size, forwarded payload size and status, every reply once with payload and wire size; the real Prometheus collector sits behind the recorder and its exported UDP families must add up to the same calls.",
   level_note="Sizes are those measured by the harness sockets; statuses are compared for OK / ERR_CIPHER / ERR_READ_ADDRESS outcomes the generator produces.",
  ),
  "C05": dict(
@@ -44,11 +44,11 @@ TEXT = {
  "C08": dict(
   technique="property-based testing (rapid): pairwise-distinct salts and behavioural reflection of recorded server output",
   level_text="Generated runs of relayed connections under all ciphers; every server salt is compared with all earlier ones, and recorded server streams are reflected back (verbatim, truncated, extended) with the replay cache on and off: for salts of at least 20 bytes the reflection must be refused as ERR_REPLAY_SERVER and handled like a probe.",
-  level_note="Freshness is checked within a run (hundreds of salts), not statistically; AEAD/HMAC strength assumed.",
+  level_note="Freshness is checked within a run (hundreds of salts, and 3000-9000 successive connections of one process in the LongRun test), not statistically; AEAD/HMAC strength assumed.",
  ),
  "C20": dict(
   technique="property-based testing (rapid): class oracle for location labels, and leak + metamorphic checks on the real collector's exposition",
-  level_text="Generated addresses and database behaviours against the location helpers with an independent class oracle (incl. zero database calls for non-global addresses); generated traffic histories against the real Prometheus collector checking that no series carries the client IP/port in any textual form, that one client has one location label, and that the exposition is invariant under replacing the client by another address of the same class.",
+  level_text="Generated addresses and database behaviours against the location helpers with an independent class oracle (incl. zero database calls for non-global addresses); generated traffic histories against the real Prometheus collector checking that no series carries the client IP/port in any textual form, that one client has one location label, that the exposition is invariant under replacing the client by another address of the same class, and that no series carries the empty location under concurrent scrapes while lookup is enabled.",
   level_note="Leak detection is textual over names and label values; values are covered by the metamorphic relation.",
  ),
  "C17": dict(
@@ -74,7 +74,7 @@ TEXT = {
  "C10": dict(
   technique="model-based property testing (rapid) with generated fault injection at every load stage; model = last successfully loaded configuration",
   level_text="Generated sequences of reload attempts, each a generated configuration plus a generated fault (file, YAML, validation, bad cipher in service i / legacy key j, unbindable listener j of service i), run against the real main package; after every attempt the full endpoint x key matrix over everything ever mentioned is compared with the last configuration that loaded, and after Stop the process must be back to its baseline of goroutines and sockets.",
-  level_note="Faults are enumerated by generation over (stage, i, j), not by instrumenting the loader; one process per case.",
+  level_note="Faults are enumerated by generation over (stage, i, j), not by instrumenting the loader; one process per case; every fifth case triggers its reloads by SIGHUP on the rewritten start file.",
  ),
  "C11": dict(
   technique="property-based testing (rapid) of generated reload sequences under continuous generated client load, judged from the server's own per-connection reports",
@@ -94,7 +94,7 @@ TEXT = {
  "C18": dict(
   technique="grammar-based property testing (rapid) of hostile TCP/UDP inputs with journalled cases, liveness canaries and resource accounting; native fuzzing of the two decoders in the thorough tier",
   level_text="Generated hostile inputs (malformed SOCKS headers inside authenticated plaintext, hostile chunk framing, raw bytes, replies of every size from every local source class, generated termination orders and listener shutdowns) are driven through the real TCP and UDP services; the process must survive (cases are journalled first), no panic may be recovered, well-formed traffic must still be served, serving must stop only after all handlers returned, and goroutines and sockets must return to the baseline.",
-  level_note="Only local destinations are generated; 'gone' means within 4 s; coverage-guided fuzzing runs only in the thorough tier.",
+  level_note="Only local destinations are generated; 'gone' means within 4 s with the garbage collector switched off during a case (no rescue by finalizers); coverage-guided fuzzing runs only in the thorough tier.",
  ),
  "C19": dict(
   technique="property-based generation of concurrent workloads executed under the Go race detector, each with a sequential-consistency oracle",
